@@ -533,6 +533,12 @@ func longformReplay(args []string) {
 				suffix = oparts[2]
 			case "empty":
 				suffix = ""
+			case "prefixed":
+				suffix = "x" + suffix
+			case "suffixed":
+				suffix += "x"
+			case "doubled":
+				suffix += suffix
 			}
 
 			did := ns + ":" + suffix + ":" + stateB64
